@@ -1098,11 +1098,22 @@ def run(ctx: Context):
                       "_handle_bad_share returns %s for a share that failed validation" % src(hb, v))
         # in _process_segment the only callback before the errback is _validate_block
         pseg = idx.func(RET + "._process_segment")
-        per = [x for x in registrations(pseg) if x.recv == "d"]
+        # the Deferreds are found by role, not by name: the per-share one is the receiver _validate_block is registered on (when
+        # it is registered nowhere: every Deferred that is collected into a list, i.e. not the returned one), the outer one is
+        # the Deferred the function returns
+        pregs = registrations(pseg)
+        returned = {attr_path(n.ast.value) for n in pseg.cfg().find(is_return) if n.ast.value is not None} - {None}
+        share_vars = {x.recv for x in pregs if x.target_name() == "self._validate_block" and x.recv}
+        if not share_vars:
+            share_vars = {x.recv for x in pregs if x.recv and x.recv not in returned}
+        per = [x for x in pregs if x.recv in share_vars]
         pn = [x.target_name() for x in per]
-        r.require(pn[:2] == ["self._validate_block", "self._handle_bad_share"] and per[1].kind == "eb" and len(pn) == 2, pseg, pseg.loc(),
+        r.require(len(share_vars) == 1 and pn[:2] == ["self._validate_block", "self._handle_bad_share"] and per[1].kind == "eb"
+                  and len(pn) == 2, pseg, pseg.loc(),
                   "per-share chain in _process_segment is %s, expected validate then bad-share errback" % pn)
-        outer = [x for x in registrations(pseg) if x.recv == "dl"]
+        outer = [x for x in pregs if x.recv in returned and x.recv not in share_vars]
+        if not returned:
+            raise AnchorVanished("_process_segment no longer returns the Deferred of the gathered validation results")
         for x in outer:
             tn_ = x.target_name()
             r.require(tn_ in ("self._maybe_decode_and_decrypt_segment", "self._set_segment", "<lambda>"), pseg, pseg.loc(x.call),
